@@ -41,8 +41,13 @@ def radiogenics(b):
     b.add_fn(fn)
     # module constant LOG_HALF must be log(0.5)
     mc = fn.src.module_constants().get("LOG_HALF")
-    ground(b, f"{FR}::LOG_HALF", f"{FR}::LOG_HALF", "module constant LOG_HALF == np.log(0.5)",
-           mc is not None and ast.unparse(mc) in ("np.log(0.5)", "np.log(.5)", "np.log(1 / 2)", "np.log(1.0 / 2.0)"), detail=ast.unparse(mc) if mc else "missing")
+    try:
+        import math
+        val = eval(compile(ast.Expression(mc), "LOG_HALF", "eval"), {"np": math, "math": math}) if mc is not None else None
+        st_ = "ok" if (val is not None and abs(val - math.log(0.5)) <= 4e-16) else ("wrong" if val is not None else "unknown")
+    except Exception:
+        st_ = "unknown"
+    structural(b, f"{FR}::LOG_HALF", f"{FR}::LOG_HALF", "module constant LOG_HALF == ln(1/2)", st_, detail=ast.unparse(mc) if mc else "missing")
     loops = [s for s in fn.node.body if isinstance(s, ast.For)]
     if len(loops) != 1:
         b.subset_exits.append(f"{fn.key}: expected exactly one loop")
@@ -53,8 +58,11 @@ def radiogenics(b):
     # loop header: zip of the four tables in the order (mass_frac, concentration, halflife, heat_production)
     hdr_ok = (ast.unparse(loop.iter) == "zip(iso_massfracs_of_isotope, iso_element_concentrations, iso_halflives, iso_heat_production)"
               and ast.unparse(loop.target) == "(mass_frac, concentration, halflife, heat_production_rate)")
-    ground(b, f"{fn.key}::loop_header", fn.key, "loop iterates the four isotope tables in lock-step, bound to (f, c, tau, q)", hdr_ok,
-           detail=ast.unparse(loop.iter) + " -> " + ast.unparse(loop.target))
+    names4 = {"iso_massfracs_of_isotope", "iso_element_concentrations", "iso_halflives", "iso_heat_production"}
+    recognised = isinstance(loop.iter, ast.Call) and ast.unparse(loop.iter.func) == "zip" and len(loop.iter.args) == 4 and {ast.unparse(a_) for a_ in loop.iter.args} == names4 \
+        and isinstance(loop.target, ast.Tuple) and len(loop.target.elts) == 4
+    structural(b, f"{fn.key}::loop_header", fn.key, "loop iterates the four isotope tables in lock-step, bound to (f, c, tau, q)", "ok" if hdr_ok else ("wrong" if recognised else "unknown"),
+               detail=ast.unparse(loop.iter) + " -> " + ast.unparse(loop.target))
     # init
     fr, ex, paths = run_fragment(b, fn, [s for s in pre_stmts if not (isinstance(s, ast.Expr) and isinstance(s.value, ast.Constant))], "init", dict(time=t), [], globals_env=genv)
     if paths:
